@@ -33,6 +33,6 @@ def run(ctx):
     pc.EXTRA = dict(viols=cmine, cov={"consumer_traces": cstats.get("traces", 0), "consumer_deliveries": cstats.get("delivered", 0),
                                       "consumer_stalls": cstats.get("stalls", 0), "consumer_model_states": mr.distinct,
                                       "consumer_model_transitions": mr.generated})
-    fams = [pc.family_interceptors, pc.family_ic_panic, lambda: pc.family_faults_ic(ctx.seed)]
+    fams = [pc.family_interceptors, pc.family_ic_panic, pc.family_resubmit_ic, lambda: pc.family_faults_ic(ctx.seed)]
     mc = ["MCProducer.small.cfg"]
     return pc.check(ctx, "C18", fams, mc)
